@@ -42,3 +42,10 @@ static_assert(std::is_same<decltype(eu::switch_active_after_action)::active_stat
 static_assert(has_no_exception_thrown<std::remove_const<decltype(eu::no_exception)>::type>::value && !has_no_message_queue<std::remove_const<decltype(eu::no_exception)>::type>::value, "EUML-013: no_exception declares no_exception_thrown only");
 static_assert(has_no_message_queue<std::remove_const<decltype(eu::no_msg_queue)>::type>::value && !has_no_exception_thrown<std::remove_const<decltype(eu::no_msg_queue)>::type>::value, "EUML-014: no_msg_queue declares no_message_queue only");
 static_assert(has_activate_deferred_events<std::remove_const<decltype(eu::deferred_events)>::type>::value, "EUML-015: deferred_events declares activate_deferred_events");
+// comparison operators inside a guard build the functor named after the operator, operands in written order
+static_assert(std::is_same<ROWOF(S2 + ev1 [g1 >= g2]), fu::vector<mf::Row<S2t, E1t, mf::none, mf::none, GreaterEqual_<G1t, G2t>>>>::value, "EUML-016: a >= b builds GreaterEqual_<a, b>");
+static_assert(std::is_same<ROWOF(S2 + ev1 [g1 > g2]), fu::vector<mf::Row<S2t, E1t, mf::none, mf::none, Greater_<G1t, G2t>>>>::value, "EUML-017: a > b builds Greater_<a, b>");
+static_assert(std::is_same<ROWOF(S2 + ev1 [g1 <= g2]), fu::vector<mf::Row<S2t, E1t, mf::none, mf::none, LessEqual_<G1t, G2t>>>>::value, "EUML-018: a <= b builds LessEqual_<a, b>");
+static_assert(std::is_same<ROWOF(S2 + ev1 [g1 < g2]), fu::vector<mf::Row<S2t, E1t, mf::none, mf::none, Less_<G1t, G2t>>>>::value, "EUML-019: a < b builds Less_<a, b>");
+static_assert(std::is_same<ROWOF(S2 + ev1 [g1 == g2]), fu::vector<mf::Row<S2t, E1t, mf::none, mf::none, EqualTo_<G1t, G2t>>>>::value, "EUML-020: a == b builds EqualTo_<a, b>");
+static_assert(std::is_same<ROWOF(S2 + ev1 [g1 != g2]), fu::vector<mf::Row<S2t, E1t, mf::none, mf::none, NotEqualTo_<G1t, G2t>>>>::value, "EUML-021: a != b builds NotEqualTo_<a, b>");
